@@ -58,13 +58,19 @@ impl HCall {
 
 pub type Judge<'a> = &'a (dyn Fn(&HCall, Option<&mut Local>) -> Verdict + Sync);
 
+pub type Exec<'a> = &'a (dyn Fn(&HCall) + Sync);
+
 fn run_sequence(seq: &[HCall], judge: Judge, l: &mut Local) -> Verdict {
+    run_sequence_with(seq, &|c: &HCall| c.exec(), judge, l)
+}
+
+fn run_sequence_with(seq: &[HCall], exec: Exec, judge: Judge, l: &mut Local) -> Verdict {
     // a fresh OS thread: thread-local state of the library starts empty; process-wide state does not (it is part of
     // the explored history: sequences of different groups run one after another and concurrently)
     std::thread::scope(|s| {
         s.spawn(|| {
             for c in &seq[..seq.len() - 1] {
-                c.exec();
+                exec(c);
             }
             judge(&seq[seq.len() - 1], Some(l))
         })
@@ -96,6 +102,11 @@ fn wrap(v: Verdict, seq: &[HCall]) -> Verdict {
 
 /// All sequences of length 2..=maxlen (with repetition) over each group's call alphabet.
 pub fn explore(r: &mut Runner, name: &str, groups: &[Vec<HCall>], maxlen: usize, judge: Judge, base_index: u64) {
+    explore_with(r, name, groups, maxlen, &|c: &HCall| c.exec(), judge, base_index)
+}
+
+/// as `explore`, with the way a prefix call is executed supplied by the caller (C11 executes it in both build configurations)
+pub fn explore_with(r: &mut Runner, name: &str, groups: &[Vec<HCall>], maxlen: usize, exec: Exec, judge: Judge, base_index: u64) {
     let rec = r.recorder();
     let mut total = 0u64;
     for g in groups {
@@ -110,7 +121,7 @@ pub fn explore(r: &mut Runner, name: &str, groups: &[Vec<HCall>], maxlen: usize,
         let g = &groups[gi];
         let n = g.len();
         // isolated verdicts (empty history, fresh thread)
-        let alone: Vec<bool> = g.iter().map(|c| run_sequence(&[*c], judge, &mut Local::default()).is_fail()).collect();
+        let alone: Vec<bool> = g.iter().map(|c| run_sequence_with(&[*c], exec, judge, &mut Local::default()).is_fail()).collect();
         let mut k = 0u64;
         for len in 2..=maxlen {
             let cnt = n.pow(len as u32);
@@ -128,11 +139,18 @@ pub fn explore(r: &mut Runner, name: &str, groups: &[Vec<HCall>], maxlen: usize,
                     l.transitions += 1;
                     continue;
                 }
-                let v = run_sequence(&seq, judge, l);
+                let v = run_sequence_with(&seq, exec, judge, l);
                 rec.record(l, base_index + ((gi as u64) << 24) + k, wrap(v, &seq));
             }
         }
     });
+}
+
+pub fn replay_with(args: &[u64], exec: Exec, judge: Judge) -> Verdict {
+    let len = args[0] as usize;
+    let seq: Vec<HCall> = (0..len).map(|i| HCall::decode(&args[1 + 5 * i..6 + 5 * i])).collect();
+    let v = run_sequence_with(&seq, exec, judge, &mut Local::default());
+    wrap(v, &seq)
 }
 
 pub fn replay(args: &[u64], judge: Judge) -> Verdict {
